@@ -127,6 +127,13 @@ func Explore(l *Loaded, names []string, opt Options) (*Report, error) {
 				return
 			}
 			defer s.Close()
+			if d := os.Getenv("SSE_SMTLOG"); d != "" {
+				os.MkdirAll(d, 0o755)
+				if f, err := os.Create(filepath.Join(d, fmt.Sprintf("worker%d.smt2", w))); err == nil {
+					defer f.Close()
+					s.Log = f
+				}
+			}
 			ex := interp.NewExec(eng, s)
 			ex.NeedWit = func(id string) bool {
 				if opt.NoReplay {
